@@ -211,6 +211,8 @@ def lines_for_bytes(p, nbytes, sparse):
 def gen_C01(rng, tier):
     out = all_bytes_battery(["read_all s=U e=U"]) + marker_word_battery(["read_all s=U e=U"])
     out += payload_marker_battery(["read_all s=U e=U"])
+    out += mixed_session_battery(rng, ["read_all s=U e=U"])
+    out += reader_buffer_end_battery(tier, ["read_all s=U e=U"])
     # directed: sparse series spanning several read buffers, so that consecutive
     # 16 KiB boundaries split sections (every payload class)
     for p in ([0, 1, 2, 3, 4, 8] if tier == "quick" else [0, 1, 2, 3, 4, 5, 8, 16, 200]):
@@ -594,12 +596,14 @@ def gen_C03(rng, tier):
                 h.op("files")
         out.append(("refuse", h.script()))
     out += torn_tail_battery(rng)
+    out += stale_bucket_battery(tier)         # appends after a tear must be accepted with caches too
     return out
 
 
 def gen_C04(rng, tier):
     out = marker_word_battery(["files", "read_all s=U e=U", "len", "range"])
     out += payload_marker_battery(["files", "read_all s=U e=U", "len", "range", "last_line"])
+    out += mixed_session_battery(rng, ["files", "len", "range"])
     obs = ["read_all s=U e=U", "len", "range", "last_line", "payload_size", "is_empty"]
     for h0 in _histories(rng, tier, PAYLOADS_ALL):
         h = Hist(h0.p, hdr=h0.hdr)
@@ -703,6 +707,74 @@ def marker_word_battery(ops_after):
                 for o in ops_after:
                     hh.op(o)
                 out.append((f"marker-word-p{p}-w{word}-n{nlines}", hh.script()))
+    return out
+
+
+def reader_buffer_end_battery(tier, ops_after):
+    """READ path: a section header starts d = 0..7 lines before the end of the first, and of the second,
+    16 KiB read buffer (counted from where a full read starts), and at least one more full buffer
+    follows; every section layout.  The carried-over part of a cut header is at most 5 lines."""
+    out = []
+    for p in ([0, 1, 4] if tier == "quick" else [0, 1, 2, 3, 4, 8]):
+        ls = p + 2
+        cl = -(-16384 // ls)
+        for nb in (1, 2):
+            h = Hist(p)
+            h.new()
+            h.op("close")
+            h.op("save 0")
+            for d in range(0, 8):
+                h.op("restore 0")
+                h.ts, h.full, h.off, h.sections = [], None, 0, []
+                h.open()
+                first = cl - d if nb == 1 else cl - d          # lines before the header inside the buffer
+                if nb == 2:
+                    # one full buffer of lines first (same section), then the header near the end of buffer 2
+                    h.pushrun(1000, 1, cl + (cl - d) - 0, 3)
+                    # the header sits after cl + (cl - d) lines; subtract what the first buffer's worth shifted
+                else:
+                    h.pushrun(1000, 1, first, 3)
+                h.pushrun(h.last() + 100000, 1, cl + 40, 4)
+                for o in ops_after:
+                    h.op(o)
+                h.op("close")
+            if marker_free(p, [1000, 1000 + 2 * cl + 100000 + cl + 40]):
+                out.append((f"reader-buffer-end-p{p}-b{nb}", h.script()))
+    return out
+
+
+def mixed_session_battery(rng, final_ops):
+    """reopen, then every kind of partial query interleaved with appends (same section and new
+    section), on files larger than one read buffer: state a query leaves behind (file cursor, remembered
+    answers) must not leak into the next append or read"""
+    out = []
+    for p in [0, 4, 8]:
+        ls = p + 2
+        n1 = 16384 // ls + 300
+        h = Hist(p)
+        h.new()
+        h.pushrun(1000, 1, n1, 3)
+        h.pushrun(h.last() + 100000, 2, 50, 4)
+        h.reopen()
+        queries = [lambda: f"read_all s=I:{h.ts[10]} e=I:{h.ts[20]}",
+                   lambda: "read_first_n n=3 s=U e=U",
+                   lambda: f"n_lines s=I:{h.ts[5]} e=I:{h.ts[9]}",
+                   lambda: f"read_n n=4 s=I:{h.ts[100]} e=I:{h.ts[400]}",
+                   lambda: f"read_first_n n=2 s=E:{h.ts[n1 - 3]} e=U",
+                   lambda: "last_line",
+                   lambda: f"read_all s=U e=E:{h.ts[3]}"]
+        for k, q in enumerate(queries):
+            h.op(q())
+            if k % 2 == 0:
+                h.push(h.last() + 1, rng)                    # same section
+            else:
+                h.push(h.last() + 100000 + k, rng)           # opens a section
+            for o in final_ops:
+                h.op(o)
+        h.reopen()
+        for o in final_ops:
+            h.op(o)
+        out.append((f"mixed-session-p{p}", h.script()))
     return out
 
 
@@ -1165,6 +1237,7 @@ def gen_C08(rng, tier):
 
 def gen_C09(rng, tier):
     out = [x for x in error_path_battery(tier) if x[0].startswith("cache-header")]
+    out += stale_bucket_battery(tier)
     for B in [1, 2, 3, 4, 10]:
         for p in ([0, 4] if tier == "quick" else [0, 1, 2, 3, 4, 8]):
             h = Hist(p, caches=[B])
@@ -1374,6 +1447,48 @@ def assets_battery(tier):
                     "read_n n=50 s=U e=U", "close",
                     "open p=any hdr=any caches=- cb=none ext=0", "len", "read_first_n n=3 s=U e=U", "close"]
             out.append((f"asset-{os.path.basename(f)}-{v}", "\n".join(ops) + "\n"))
+    return out
+
+
+def stale_bucket_battery(tier):
+    """the source loses its last k lines, which were FAR newer than the rest, while the cache keeps the
+    bucket made from them; then lines only slightly newer than the survivors are appended, the series
+    is reopened and appended to again: every append must be accepted, no open may fail"""
+    out = []
+    for p in ([4, 0] if tier == "quick" else [0, 1, 2, 4, 8]):
+        for B in (2, 3, 4, 10):
+            h = Hist(p, caches=[B])
+            h.new()
+            n = 2 * B
+            ts = [10 * (i + 1) for i in range(n - 1)] + [10 ** 6]        # the last line is far ahead
+            for t in ts:
+                h.push(t, pl=bytes([1] * p))
+            H = header_len(p, 0)
+            h.op("close")
+            h.op("save 0")
+            # remove the last line together with the section it opened
+            cut = H + h.off - (h.ms + h.ls)
+            for extra in (0, 1):
+                h.op("restore 0")
+                h.op(f"cut data {cut + extra}")
+                h.open()
+                h.op("len")
+                t = ts[-2]
+                for k in range(2 * B + 1):
+                    t += 10
+                    h.op(f"push ts={t} pl={hexs(bytes([2] * p))}")
+                h.op("len")
+                h.op("read_all s=U e=U")
+                h.op("read_n n=2 s=U e=U")
+                h.op("files")
+                h.op("close")
+                h.open()
+                h.op("len")
+                h.op(f"push ts={t + 10} pl={hexs(bytes([3] * p))}")
+                h.op("files")
+                h.op("close")
+            if marker_free(p, ts):
+                out.append((f"stale-bucket-p{p}-B{B}", h.script()))
     return out
 
 
@@ -1617,6 +1732,8 @@ def gen_C19(rng, tier):
     out = spread_battery(["len", "read_n n=2 s=U e=U", "read_all s=U e=U"])
     out += text_header_battery(tier)      # builder options: demanded vs stored text headers
     out += error_path_battery(tier)
+    out += stale_bucket_battery(tier)
+    out += reader_buffer_end_battery(tier, ["read_all s=U e=U", "read_first_n n=100000 s=E:1050 e=U"])
     # bucket sizes at the far end of usize
     for caches in ([U64], [1 << 63], [3, U64], [(1 << 32) + 1]):
         h = Hist(4, caches=caches)
